@@ -573,7 +573,7 @@ pub fn stages(ctx: &Ctx) -> Vec<Stage> {
             rep.eval();
             let expect = match what.as_str() {
                 "new() on Dyn" => "StaticOnDynamic",
-                "new_dyn(2) on Const<1>" => "DynamicOnStatic",
+                "new_dyn(2) on Const<1>" | "new_dyn(1) on Const<1>" | "new_dyn(3) on Const<3>" => "DynamicOnStatic",
                 _ => "Ok",
             };
             rep.count("dimension_misuse_probes", 1);
@@ -611,6 +611,6 @@ pub fn thresholds(ctx: &Ctx, rep: &Report) -> Vec<Threshold> {
         t.push(Threshold { what: format!("{}: fault points enumerated", s.name()), required: 50.0, observed: rep.counter(&format!("{}/fault_points", s.name())) as f64 });
     }
     t.push(Threshold { what: "sequences exercising the min/max coupling rule".into(), required: 1000.0, observed: rep.counter("sequences_with_min_max_coupling") as f64 });
-    t.push(Threshold { what: "dimension misuse probes".into(), required: 28.0, observed: rep.counter("dimension_misuse_probes") as f64 });
+    t.push(Threshold { what: "dimension misuse probes".into(), required: 49.0, observed: rep.counter("dimension_misuse_probes") as f64 });
     t
 }
